@@ -22,7 +22,7 @@ parts_of() {
     C17) echo "enum:filter pmc:twoheight" ;;
     C14|C16) echo "vsched" ;;
     C13) echo "vsched:runtime pmc:twoheight racecheck:race" ;;
-    C12) echo "vsched:runtime enum:api pmc:protocol" ;;
+    C12) echo "vsched:runtime vsched:scenarios enum:api pmc:protocol" ;;
     C15) echo "enum:registry vsched:runtime" ;;
     C19) echo "enum:formula vsched:races" ;;
     *) echo unknown ;;
